@@ -108,7 +108,11 @@ func vpAssert(label string, c bool) {
 	}
 }
 
+// vpCheck: an assertion whose failure does not end the path
+func vpCheck(label string, c bool) { vpAssert(label, c) }
+
 func vpKnown(name string, c bool)        {}
+func vpClearKnown()                      {}
 func vpAnd(a, b bool) bool               { return a && b }
 func vpOr(a, b bool) bool                { return a || b }
 func vpImplies(a, b bool) bool           { return !a || b }
